@@ -10,7 +10,8 @@ cd "$WT" || exit 2
 DEMO=$(git status --short | awk '/zz_demo_/ {print $2}' | head -1)
 [ -n "$DEMO" ] || { echo "no demo file found"; exit 2; }
 PKG=./$(dirname "$DEMO")/
-RUN=$(grep -o 'func TestDemo[A-Za-z0-9_]*' "$DEMO" | sed 's/func //' | paste -sd'|')
+RUN=$(grep -o 'func Test[A-Za-z0-9_]*' "$DEMO" | sed 's/func //' | paste -sd'|')
+[ -n "$RUN" ] || { echo "no test function in demo"; exit 2; }
 LOG=/tmp/confirm-$NAME.log; : > $LOG
 echo "== build with change" | tee -a $LOG
 go build ./... >>$LOG 2>&1 || { echo "BUILD FAILS"; exit 1; }
@@ -18,7 +19,7 @@ echo "== demo with change (must fail)" | tee -a $LOG
 if go test -vet=off -count=1 -run "$RUN" $PKG >>$LOG 2>&1; then echo "DEMO DOES NOT FAIL WITH CHANGE"; exit 1; fi
 echo "== existing suite with change (must pass; ./info needs network and is excluded)" | tee -a $LOG
 PKGS=$(go list ./... | grep -v '/info$')
-if ! go test -vet=off -count=1 -skip 'TestDemo' $PKGS >>$LOG 2>&1; then echo "SUITE FAILS WITH CHANGE"; grep -E "^(FAIL|---)" $LOG | head; exit 1; fi
+if ! go test -vet=off -count=1 -skip "$RUN" $PKGS >>$LOG 2>&1; then echo "SUITE FAILS WITH CHANGE"; grep -E "^(FAIL|---)" $LOG | head; exit 1; fi
 echo "== demo without change (must pass)" | tee -a $LOG
 git diff -- . ':(exclude)*_test.go' ':(exclude)patch.diff' ':(exclude)meta.json' > /tmp/confirm-$NAME.patch
 git apply -R /tmp/confirm-$NAME.patch || { echo "cannot revert"; exit 2; }
